@@ -140,11 +140,11 @@ def gen_topology(tier, seed):
                 yield mkcase(seed, 4, nl, 4, "two", "tri", "cluster", ppp=m)
 
 
-def build(case, frames=None, nls=None, steps=None, wts="auto"):
+def build(case, frames=None, nls=None, steps=None, wts="auto", Hs=None):
     """Write the harness files for the case and construct the real boo_3d object."""
     from PyMatterSim.static.boo import boo_3d
 
-    H = np.array(case["H"], float)
+    H = np.array(case["H"], float) if Hs is None else np.array(Hs, float)
     frames = frames if frames is not None else [case["pos"]]
     nls = nls if nls is not None else [case["nl"]] * len(frames)
     n = len(frames[0])
@@ -372,17 +372,20 @@ TOPO_H = [
 def gen_history(tier, seed):
     ls = (4, 7) if tier == "quick" else (2, 4, 6, 7, 12)
     for l in ls:
-        for cell in ("orth", "tri"):
+        for cell in ("orth", "tri", "trivar"):
             for wmode in ("none", "two"):
                 for alpha in ("mixed", "even"):
                     depth = 3 if (tier == "quick" or (alpha == "mixed" and l != 6)) else 4
-                    H = cell3(cell)
-                    cfgs = [positions(seed, 4, "cluster", H, tag=f"h{c}") for c in range(3)]
+                    H = cell3("tri" if cell == "trivar" else cell)
+                    # "trivar": every configuration letter carries its own cell - same edge lengths, tilt factors scaled by 1, -1, 1/2
+                    # (a sheared trajectory): each frame must be analysed with ITS cell
+                    Hc = [np.diag(np.diag(H)) + (H - np.diag(np.diag(H))) * (f if cell == "trivar" else 1.0) for f in (1.0, -1.0, 0.5)]
+                    cfgs = [positions(seed, 4, "cluster", Hc[c], tag=f"h{c}") for c in range(3)]
                     if alpha == "mixed":
                         letters = [[0, 0, 100], [1, 1, 100], [2, 2, 300], [0, 1, 300], [1, 1, 300]]
                     else:
                         letters = [[0, 0, 200], [1, 2, 200], [2, 1, 200], [2, 0, 200]]
-                    yield {"l": l, "cell": cell, "H": H.tolist(), "ppp": [1, 1, 1] if alpha == "mixed" else [1, 0, 1], "wmode": wmode,
+                    yield {"l": l, "cell": cell, "H": H.tolist(), "H_cfgs": [h.tolist() for h in Hc], "ppp": [1, 1, 1] if alpha == "mixed" else [1, 0, 1], "wmode": wmode,
                            "cfgs": cfgs, "letters": letters, "alpha": alpha, "depth": depth, "dt": 0.002 if alpha == "mixed" else 0.5,
                            "rdelta": 0.5 if alpha == "mixed" else 0.3, "step0": 500}
 
@@ -431,13 +434,14 @@ def run_history(case):
     cfgs = [np.array(c, float) for c in case["cfgs"]]
     letters = case["letters"]
     sig = {"cell": case["cell"], "wmode": case["wmode"], "alpha": case["alpha"]}
-    if screen_margin(cfgs, H, ppp) < 1e-7:
+    Hc = [np.array(h, float) for h in case["H_cfgs"]] if case.get("H_cfgs") else [H] * len(cfgs)
+    if min(screen_margin([c], h, ppp) for c, h in zip(cfgs, Hc)) < 1e-7:
         return R.screen()
     refq = {}
     for k, (c, t, _) in enumerate(letters):
         nl = TOPO_H[t]
         W = weights_for(nl, case["wmode"])
-        refq[k] = B.ref_qlm(cfgs[c], H, ppp, nl, l, W)
+        refq[k] = B.ref_qlm(cfgs[c], Hc[c], ppp, nl, l, W)
     seen = set()
     frontier = [()]
     states = transitions = elem = 0
@@ -454,7 +458,8 @@ def run_history(case):
                 steps = [case["step0"]]
                 for k in hist[1:]:
                     steps.append(steps[-1] + letters[k][2])
-                b, snaps, wts, nmax = build(case, frames=[f.tolist() for f in frames], nls=nls, steps=steps)
+                Hs = [Hc[letters[k][0]] for k in hist]
+                b, snaps, wts, nmax = build(case, frames=[f.tolist() for f in frames], nls=nls, steps=steps, Hs=Hs)
                 F = len(hist)
                 sg = dict(sig, F=min(F, 3))
                 qs = [refq[k][0] for k in hist]
@@ -475,7 +480,7 @@ def run_history(case):
                 nxt.append(hist)
                 for coarse, ser in ((False, qs), (True, Qs)):
                     check_time(R, sg, b.time_corr(coarse_graining=coarse, dt=dt), np.array(ser), steps, dt, coarse)
-                    ref = B.ref_spatial(frames, H, ppp, w, ser, "vector")
+                    ref = B.ref_spatial(frames, np.array(Hs), ppp, w, ser, "vector")
                     popl = max(popl, check_spatial(R, sg, b.spatial_corr(coarse_graining=coarse, rdelta=w), ref, coarse))
                     elem += F + 2 * len(ref["r"])
                     got = b.ql_Ql(coarse_graining=coarse)
